@@ -817,6 +817,12 @@ impl TransportHandle {
                 },
             );
         }
+        // Removes the entry on every exit path, including a caller that drops this future
+        // (cancellation) while it waits for the response.
+        let _pending_guard = PendingRequestGuard {
+            requests: Arc::clone(&self.active_requests),
+            message_id: message_id.clone(),
+        };
 
         let envelope = RequestResponseEnvelope {
             message_id: message_id.clone(),
@@ -922,6 +928,27 @@ impl TransportHandle {
                 format!("Failed to serialize message: {e}").into(),
             ))
         })
+    }
+}
+
+/// Removes a pending request entry when dropped, so that a cancelled `send_request`
+/// does not leave its entry behind (entries count against `MAX_ACTIVE_REQUESTS`).
+struct PendingRequestGuard {
+    requests: Arc<RwLock<HashMap<String, PendingRequest>>>,
+    message_id: String,
+}
+
+impl Drop for PendingRequestGuard {
+    fn drop(&mut self) {
+        if let Ok(mut reqs) = self.requests.try_write() {
+            reqs.remove(&self.message_id);
+        } else if let Ok(handle) = tokio::runtime::Handle::try_current() {
+            let requests = Arc::clone(&self.requests);
+            let message_id = std::mem::take(&mut self.message_id);
+            handle.spawn(async move {
+                requests.write().await.remove(&message_id);
+            });
+        }
     }
 }
 
